@@ -176,9 +176,7 @@ def tlc(module, cfg=None, workers=1, env=None, timeout=1800, simulate=None, dept
         raise ToolError("TLC timed out after %ds on %s" % (timeout, name))
     finally:
         shutil.rmtree(meta, ignore_errors=True)
-        for d in os.listdir("/tmp"):
-            if d.startswith("SANY"):
-                shutil.rmtree(os.path.join("/tmp", d), ignore_errors=True)
+        clean_tmp()
     r = TlcResult()
     r.wall = time.time() - t0
     r.replay_path = out_path
@@ -236,11 +234,23 @@ def tlc(module, cfg=None, workers=1, env=None, timeout=1800, simulate=None, dept
     return r
 
 
+def clean_tmp(min_age=90):
+    """TLC/SANY leave /tmp/SANY* and /tmp/tlc-* behind; remove those that are not in use (other
+    TLC processes may be parsing right now, so only directories older than min_age seconds)."""
+    now = time.time()
+    for d in os.listdir("/tmp"):
+        if d.startswith("SANY") or d.startswith("tlc-"):
+            p = os.path.join("/tmp", d)
+            try:
+                if now - os.path.getmtime(p) > min_age:
+                    shutil.rmtree(p, ignore_errors=True)
+            except OSError:
+                pass
+
+
 def sany(module):
     rc, out, err, dt = sh(["tla-sany", os.path.join(SPEC, module + ".tla")], cwd=SPEC, check=False, timeout=300)
-    for d in os.listdir("/tmp"):
-        if d.startswith("SANY"):
-            shutil.rmtree(os.path.join("/tmp", d), ignore_errors=True)
+    clean_tmp()
     if rc != 0 or "Semantic errors" in out or "Parse Error" in out or "Fatal errors" in out or "*** Abort" in out:
         raise ToolError("SANY rejects %s:\n%s" % (module, out[-3000:]))
 
